@@ -6,11 +6,11 @@ import os
 VERIF = os.path.dirname(os.path.dirname(os.path.abspath(__file__)))
 
 T = {
-    "C01": ("offline trace automaton over the recorded history of real Tuner.run executions (simulator + scripted-process backends)",
+    "C01": ("offline trace automaton over the recorded history of real Tuner.run executions (simulator + scripted-process backends) with injected failures, external stops and ground-truth job-end events (bounded-progress rule)",
             "Held on the explored runs: worker occupancy, id sequence, per-trial life-cycle automaton and notification conservation are decided by an offline checker over the event log recorded at the public scheduler/backend/callback boundaries, across the scheduler matrix, delay settings and injected failures.", "§4 C01"),
     "C02": ("exactly-once / prefix / no-delivery-after-decision checker over uniquely identified emissions vs deliveries",
             "Held on the explored poll plans and simulator runs: every emission carries a unique id, so the delivered sequence of every run is checked to be a gap-free ordered prefix with nothing emitted after a stop/pause decision.", "§4 C02"),
-    "C03": ("lock-step reference-model monitor (numpy.quantile stopping rule) on harness-driven report schedules",
+    "C03": ("lock-step reference-model monitor (numpy.quantile stopping rule) on harness-driven report schedules incl. sparse reporters, and on decisions recorded inside real Tuner runs (engine R); icontract invariants on Rung",
             "Held on the explored schedules: each decision of the real scheduler is compared with an independent reference stopping-rung model fed the same events, with an explicit round-off band.", "§4 C03"),
     "C04": ("lock-step reference-model monitor (promotion rule, PASHA cap, cost threshold) on harness-driven suggest/report interleavings",
             "Held on the explored schedules: every suggestion (resume vs start, resource target) and decision is compared with an independent reference promotion model.", "§4 C04"),
@@ -24,13 +24,13 @@ T = {
             "Held on the explored data sets and parameters: predictions, likelihood, joint-sample covariance, jitter and incremental updates are compared with dense textbook formulas under a conditioning-scaled tolerance.", "§4 C08"),
     "C09": ("Richardson-extrapolated finite differences and closed forms vs the real gradients",
             "Held on the explored points: gradients of the fitting criterion and of the acquisition functions are compared with extrapolated central differences (with their own error estimate); EI with its closed form.", "§4 C09"),
-    "C10": ("table/time oracle recomputing every delivered result of real simulated Tuner runs",
+    "C10": ("table/time oracle recomputing every delivered result of real simulated Tuner runs; scripted wall clock under the time keeper (outside time charged exactly once); every clock advance recorded",
             "Held on the explored simulated runs: metric values, level sequences, per-trial seed and simulated time stamps are recomputed from the table and the observed start/resume events.", "§4 C10"),
     "C11": ("lock-step twins with perturbed global RNGs and decoys; fresh-process twins under different hash seeds",
             "Held on the explored histories: twin traces are compared step by step in process and as digests across fresh processes.", "§4 C11"),
-    "C12": ("stop-criterion monitor at every loop end, budget overshoot bound, post-run backend state inspection, injected exceptions",
+    "C12": ("stop-criterion monitor at every loop end, budget overshoot bound, post-run backend state inspection, injected exceptions, run() re-entered with the criterion holding",
             "Held on the explored runs: no iteration/start after the criterion holds, count budgets overshoot by at most n_workers, nothing left running after run() returns normally or by injected exception.", "§4 C12"),
-    "C13": ("fault-injection at enumerated failure placements with reference-model and bookkeeping oracles",
+    "C13": ("fault-injection at enumerated failure placements with reference-model and bookkeeping oracles (engine A) plus real Tuner runs with failing and externally stopped jobs decided by the C01 trace automaton (engine B)",
             "Held on the explored fault sequences: failures at enumerated points for every scheduler; no raise, failed never resumed/re-suggested, other trials' bookkeeping intact, synchronous rungs complete.", "§4 C13"),
     "C14": ("state invariant checked after every event against what the trials actually reported",
             "Held on the explored schedules: the surrogate data set and pending evaluations are compared after every event with the reports and the running set.", "§4 C14"),
@@ -44,7 +44,7 @@ T = {
             "Held on the explored scripts: retrieved reports equal the reported dictionaries in order; counters and time stamps monotone; rejected reports raise and leave the stream intact.", "§4 C18"),
     "C19": ("brute-force Pareto oracle and MOASHA reference rule on generated point sets and schedules",
             "Held on the explored point sets and schedules: pareto_efficient and nondominated_sort vs brute force; MOASHA decisions vs the documented rank rule computed from the recorded priorities.", "§4 C19"),
-    "C20": ("checkpoint life-cycle monitor over real Tuner runs on a scripted-process backend with real checkpoint directories",
+    "C20": ("checkpoint life-cycle monitor over real Tuner runs on a scripted-process backend with real checkpoint directories (NaN-reporting trials, PBT pending-clone probe)",
             "Held on the explored runs: at every resume/copy the checkpoint exists; deletions happen only in states the property allows.", "§4 C20"),
 }
 
